@@ -4,6 +4,7 @@
 export GOFLAGS=-mod=mod GOPROXY=off GOSUMDB=off GOTOOLCHAIN=local
 wt=/var/tmp/benign-wt-$$; out=/var/tmp/benign-out-$$; mkdir -p $out
 git -C /repo worktree add -q --detach "$wt" HEAD || exit 2
+cp /verif/expected_obligations.json "$wt/.verif_expected.json"
 trap 'git -C /repo worktree remove --force "$wt" >/dev/null 2>&1; rm -rf "$out"' EXIT
 for e in "$1"/e*/; do
   ( cd "$wt" && git checkout -q -- . && git apply "$e/patch.diff" ) || { echo "$(basename $e): patch does not apply"; continue; }
